@@ -37,7 +37,7 @@ def main():
             res["patch_error"] = out[-400:]
         else:
             os.rename(os.path.join(wt, "tests/seed_demo.rs"), os.path.join(wt, "seed_demo.rs.off"))
-            rc, out = sh("cargo test --workspace --offline 2>&1 | grep -E 'test result|FAILED|error' | head -20", cwd=wt)
+            rc, out = sh("cargo test --workspace --offline 2>&1 | grep -E 'test result|FAILED|^error' | head -20", cwd=wt)
             res["suite_passes_with_patch"] = ("FAILED" not in out and "error" not in out and out.count("test result: ok") >= 5)
             res["suite_tests_ok_lines"] = out.count("test result: ok")
             os.rename(os.path.join(wt, "seed_demo.rs.off"), os.path.join(wt, "tests/seed_demo.rs"))
